@@ -65,4 +65,12 @@ CLAIMS = {
   technique="per-call boundary monitor (error variant + elapsed) against a peer that never reads, bound on accepted-but-undelivered messages, and the C01 conservation oracle once the peer drains; recv-side timeout monitor on empty queues",
   level_text="Held (apart from the recorded DEALER-egress findings) on every (pair, transport, HWM, timeout) explored: SNDTIMEO/RCVTIMEO 0 fail at once with would-block, T>0 fail within [T, T+2 s] with timeout/would-block, -1 does not fail while observed and completes once the peer reads, the accepted count stays under the HWM bound, and nothing refused is delivered later. Exploration with generous time bounds.",
   level_note="A timing regression smaller than the bounds (15 ms early, 2 s late) passes; the -1 observation lasts 3 s in quick and 35 s in thorough (one code path substitutes 30 s)."),
+ "C15": dict(
+  technique="C01 integrity/completeness oracle at the receiver of a sender that closes with a given LINGER, plus wall-clock monitor of close()/term()",
+  level_text="Held (apart from recorded findings) on every (sender, transport, LINGER, queued depth, close style, reader pace) explored: nothing truncated, corrupt or duplicated arrives, everything accepted arrives when LINGER is -1 or 10 s, LINGER 0 closes promptly and close/term never outlast LINGER by more than the slack. Exploration with generous time bounds.",
+  level_note="'Ample' LINGER is 10 s for at most 20 MB over loopback; PUB completeness is not required; DEALER loss/reorder is recorded under C01."),
+ "C16": dict(
+  technique="end-of-history assertion monitor over chaos histories (blocked sends/recvs, connect retries, peers stalled mid-handshake, concurrent close/term): return times, panic hook, in-flight call ages, re-bind, live-actor gauge (hook), tokio alive tasks, /proc/self/fd",
+  level_text="Held on every chaos history explored: close()/term() return within 30 s and not via term's internal 10 s timeout, no panic, no API call stays in flight for 2 s after term, endpoints of closed binders can be bound again, live actors 0, no inproc names, task and fd counts back to their pre-history values. Exploration of sampled schedules.",
+  level_note="Baselines for tasks/fds are taken inside the same runtime just before each history; operations that keep succeeding after close are counted, not judged."),
 }
